@@ -537,7 +537,8 @@ def check(run):
     run.assumptions += ASSUMPTIONS
     run.cov["rule"] = (
         "case = (seed, 4 generator switches, max_depth, stage gen|erase) of the real pipeline for Java (max_depth <= %d, cap <= %ds); compared: "
-        "(a) model text == JavaTranslator text byte for byte; (b) javac verdict of the emitted file in one batch (tool's command "
+        "(a) model text == JavaTranslator text byte for byte; (a'') the Lean bracket scanner on the real text says balanced whenever the "
+        "Lean deciders of javaText_balanced_full's hypotheses hold for the exported program (see bracket_balance); (b) javac verdict of the emitted file in one batch (tool's command "
         "line + real analyze_compiler_output) == accepted, and == its verdict when compiled alone / in batches of other sizes. "
         "non-trivial = program with more than one top-level declaration; distinct by (seed, switches, stage)" % (MAX_DEPTH, CAP))
     run.cov["exhaustive"] = False
